@@ -92,6 +92,14 @@ def mutants(design, classes=None):
                 dd[3] = d[3] + 1
                 d2["modules"][mname]["decls"][di] = tuple(dd)
                 out.append(("array_count", f"{mname}.{d[1]} n {d[3]}->{d[3]+1}", d2, {"width"}))
+        # ---- an attribute of this module that another module takes over afterwards (first of each kind) ----
+        seen_kinds = set()
+        for di, d in enumerate(decls):
+            if d[0] in ("sig", "port", "binst", "inst", "array", "pair") and d[0] not in seen_kinds:
+                seen_kinds.add(d[0])
+                d2 = copy.deepcopy(design)
+                d2["steal"] = [(mname, d[1])]
+                out.append(("stolen_attribute", f"{mname}.{d[1]} ({d[0]})", d2, {"orphan"}))
         # ---- connections ----
         for di, d in enumerate(decls):
             if d[0] not in ("inst", "array", "pair"):
@@ -139,10 +147,18 @@ def mutants(design, classes=None):
                             extra = some_scalar(design, mname)
                             if extra and e[0] in ("anon", "dict"):
                                 out.append(("anon_member_width", site, replace_conn(design, mname, di, ci, set_at(e, path, ("cat", [sub, extra]))), {"width"}))
-                    elif k in ("anon", "dict") and not path:
+                    elif k in ("anon", "dict"):
                         extra = some_scalar(design, mname)
-                        if extra:
+                        if extra and not path:
                             out.append(("anon_extra_member", site, replace_conn(design, mname, di, ci, (k, list(sub[1]) + [("zzextra", extra)])), {"extra_member"}))
+                            # ... an extra member named like the *flattened* name of a nested member the port does have
+                            bdef = design["bundles"].get(ports[pname][1]) if ports[pname][0] != "sig" else None
+                            for sname, sb, _flip in (bdef["subs"] if bdef else []):
+                                for leaf in design["bundles"][sb]["sigs"][:1]:
+                                    out.append(("anon_extra_member", site + "/flatname", replace_conn(design, mname, di, ci, (k, list(sub[1]) + [(f"{sname}_{leaf[0]}", extra)])), {"extra_member"}))
+                        elif extra:
+                            # ... an extra member inside a nested anonymous bundle
+                            out.append(("anon_extra_member", site + "/nested", replace_conn(design, mname, di, ci, set_at(e, path, (k, list(sub[1]) + [("zzextra", extra)]))), {"extra_member"}))
                     elif k == "b":
                         dec = refsem.mod_names(mod).get(sub[1])
                         if dec:
